@@ -80,6 +80,21 @@ CHECKS = {
             'Trusted: Lean kernel; CPython re enters as the table of re.match results; file decoding. Two known '
             'findings (trailing empty line normalisation).',
             'DESIGN.md 4 C04'),
+    'C05': ('Lean 4 theorems over a model of the DataFrame structure checks and verdict + model/implementation correspondence',
+            'Kernel-checked theorem check_iff_agree: for every pair of column lists (names, dtypes), row counts, option '
+            'flags (None / False / list / function result for check_data, check_types, check_extra_cols, check_order), '
+            'type-matching level and value-comparison outcome, the model of check_dataframe passes exactly when the '
+            'independently stated rule Agree holds (selected columns present in both frames with types agreeing at the '
+            'level, no selected extra column, same relative order, same row count, selected values equal); types_match '
+            'is the documented relation of the three levels, reflexive, symmetric and monotone in the level; a copy '
+            'passes; a changed row count, dropped / renamed / added / retyped / moved column or a value difference fails. '
+            'The model is tied to the code on all pairs of 18 dtype names x levels and, through spied reporters, on the '
+            'structure lists and the verdict of every generated pair of frames; value equality after rounding enters the '
+            'model as a parameter and is recomputed cell by cell (on the precision grid) by the oracle through '
+            'assertDataFramesEqual / assertDataFrameCorrect on memory, parquet and CSV entry points.',
+            'Trusted: Lean kernel; DataFrame.round / equals, sort_values, condition filtering, parquet / CSV readers not '
+            'modelled (oracle only). No open findings; four fixed.',
+            'DESIGN.md 4 C05'),
     'C06': ('Lean 4 theorems over the shared constraint model + model/implementation correspondence',
             'Kernel-checked theorems over the model of the detect_* record predicates and the failure counting: '
             'constraint verdicts under detection equal plain verification; for record-wise kinds (min, max, lengths, '
